@@ -279,6 +279,20 @@ def check_window_sizes(ctx):
                           show(fv, 100), st.init.loc(), st.init.qualname, f"beta:{a_given}")
 
 
+def _is_nfold_grid(rx: Num, st: Strategy) -> bool:
+    """the grid is oversample_linspace(self.x, n), possibly computed relative to an offset s: s + oversample_linspace(self.x - s, n)
+    (the helper is affine-equivariant in its array argument, so every n-th point is an original abscissa over the reals)"""
+    els = [a for a in rx.r.atoms() if sym.ATOMS.head(a) == 'el' and isinstance(sym.ATOMS.args(a)[0], Ref) and call_is(sym.ATOMS.args(a)[0].term, 'oversample_linspace')]
+    if len(els) != 1 or not (sym.ATOMS.args(els[0])[1] == sym.idx()):
+        return False
+    call = sym.ATOMS.args(els[0])[0].term
+    shift = rx.r - Rat.atom(els[0])
+    if sym.free_idx(shift):
+        return False
+    arg = call.kw('a')
+    return isinstance(arg, Num) and arg.length is not None and arg.r == st.X0.r - shift and isinstance(call.kw('num'), Num) and call.kw('num').r == st.n
+
+
 def check_other_strategies(ctx):
     ctx.rule('C05.4', 'PiecewiseConstantRFA.rfa returns the initial oversampling unchanged: (oversample_linspace(x, n), oversample_piecewise_constant(y, n))')
     ctx.rule('C05.5', 'CubicSplineRFA samples CubicSpline(self.x, self.y) on the oversampled grid (every n-th grid point is an original abscissa, C04.2); '
@@ -287,38 +301,32 @@ def check_other_strategies(ctx):
     res = st.result
     ok = isinstance(res, Tup) and len(res.items) == 2
     if ok:
-        rx, ry = unwrap(res.items[0]), unwrap(res.items[1])
-        ok = call_is(rx, 'oversample_linspace') and veq(unwrap(rx.kw('a')), unwrap(st.X0)) and rx.kw('num').r == st.n \
-            and call_is(ry, 'oversample_piecewise_constant') and veq(unwrap(ry.kw('a')), unwrap(st.Y0)) and ry.kw('num').r == st.n
-    ctx.check(ok and not st.stores, 'C05.4', 'PiecewiseConstantRFA reproduces each average exactly', show(res, 300), st.rfa.loc(), st.rfa.qualname, 'pc')
+        ry = unwrap(res.items[1])
+        ok = call_is(ry, 'oversample_piecewise_constant') and veq(unwrap(ry.kw('a')), unwrap(st.Y0)) and ry.kw('num').r == st.n
+    ctx.check(ok and not st.stores, 'C05.4', 'PiecewiseConstantRFA reproduces each average exactly (values are the piecewise-constant oversampling, never written)',
+              show(res, 300), st.rfa.loc(), st.rfa.qualname, 'pc')
     st = strategy(ctx.prog, 'CubicSplineRFA')
     res = st.result
     ok = isinstance(res, Tup) and len(res.items) == 2
     detail = show(res, 400)
     if ok:
         rx, ry = res.items
-        gx = unwrap(rx)
         if not isinstance(rx, Num):
-            from ..values import term_as_num
-            rx = term_as_num(rx, True, 'ndarray')
-        ok = call_is(gx, 'oversample_linspace') and veq(unwrap(gx.kw('a')), unwrap(st.X0))
-        # ry: element i = apply(CubicSpline(self.x, self.y), grid[i])
-        okv = isinstance(ry, Num) and ry.length is not None
-        if okv:
-            apps = [t for t in walk_vals(ry) if isinstance(t, Term) and t.head == 'apply']
-            okv = False
-            if not isinstance(rx, Num):
-                from ..values import term_as_num as _tn
-                rx = _tn(rx, True, 'ndarray')
-            for t in apps:
-                f = t.args[0]
-                if isinstance(f, Term) and f.head == 'lib:scipy.interpolate.CubicSpline' and targ(f, 'x', 0) is not None and \
-                        targ(f, 'y', 1) is not None and \
-                        veq(unwrap(targ(f, 'x', 0)), unwrap(st.X0)) and veq(unwrap(targ(f, 'y', 1)), unwrap(st.Y0)) and len(t.args) == 2:
-                    g = t.args[1]
-                    okv = okv or (isinstance(g, Num) and isinstance(rx, Num) and g.r == rx.r)
-        ok = ok and okv
-    ctx.check(ok, 'C05.5', 'CubicSplineRFA: y[i] = CubicSpline(self.x, self.y)(grid[i]) on the grid that is returned', detail,
+            from ..values import term_as_num as _tn
+            rx = _tn(rx, True, 'ndarray')
+        apps = [t for t in walk_vals(ry) if isinstance(t, Term) and t.head == 'apply' and len(t.args) == 2]
+        okv = False
+        for t in apps:
+            f = t.args[0]
+            if isinstance(f, Term) and f.head == 'lib:scipy.interpolate.CubicSpline' and targ(f, 'x', 0) is not None and targ(f, 'y', 1) is not None and \
+                    veq(unwrap(targ(f, 'x', 0)), unwrap(st.X0)) and veq(unwrap(targ(f, 'y', 1)), unwrap(st.Y0)):
+                g = t.args[1]
+                if not isinstance(g, Num) and isinstance(g, Term):
+                    from ..values import term_as_num as _tn
+                    g = _tn(g, True, 'ndarray')
+                okv = okv or (isinstance(g, Num) and g.r == rx.r)
+        ok = okv and _is_nfold_grid(rx, st)
+    ctx.check(ok, 'C05.5', 'CubicSplineRFA: y = CubicSpline(self.x, self.y) evaluated (point by point or at once) on the returned n-fold grid, which contains every original abscissa', detail,
               st.rfa.loc(), st.rfa.qualname, 'cubic')
     ctx.trust('scipy.interpolate.CubicSpline interpolates its knots')
 
